@@ -4,7 +4,7 @@ from typing import Optional
 from ..core import Report
 from ..fjfront import Stl
 from ..pyfacts import Repo
-from ..stlrules import rule_closure, rule_extent, rule_alias, rule_scratch
+from ..stlrules import rule_closure, rule_extent, rule_alias, rule_scratch, rule_const_fits, rule_jumpword_restore, rule_snapshot_order
 
 FILES = ['flipjump/stl/bit/memory.fj', 'flipjump/stl/bit/logics.fj', 'flipjump/stl/bit/cond_jumps.fj', 'flipjump/stl/bit/shifts.fj',
          'flipjump/stl/bit/math.fj', 'flipjump/stl/bit/mul.fj', 'flipjump/stl/bit/div.fj']
@@ -18,6 +18,9 @@ def check(rep: Report, repo: Optional[Repo] = None) -> None:
     rule_extent(rep, stl, 'C05', FILES, 55, widths=(64,) if rep.tier == 'quick' else (16, 32, 64))
     rule_scratch(rep, stl, 'C05', FILES, 60)
     rule_alias(rep, stl, 'C05', FILES, 15)
+    rule_const_fits(rep, stl, 'C05', FILES, 2)
+    rule_snapshot_order(rep, stl, 'C05', FILES, 5)
+    rule_jumpword_restore(rep, stl, 'C05', FILES, 2)
     rep.assumptions.append('footprints assume generic position: distinct symbolic operands of a compile-time `==` / `!=` aliasing test denote distinct variables')
     rep.not_decided.append('bit-serial arithmetic correctness for every operand (needs execution of FlipJump code)')
 
